@@ -198,6 +198,8 @@ def run_one(crate, h, out_dir, extra_args=None, timeout=None, feats=None):
 
 def run_many(crate, harnesses, out_dir, max_par=14, mem_budget_gb=52):
     """Run harnesses in parallel, packed by declared memory class."""
+    max_par = int(os.environ.get("VERIF_MAX_PAR", max_par))
+    mem_budget_gb = int(os.environ.get("VERIF_MEM_BUDGET_GB", mem_budget_gb))
     os.makedirs(out_dir, exist_ok=True)
     feats = feature_args(harnesses)
     lock = threading.Condition()
